@@ -23,14 +23,14 @@ import (
 
 // Req is one request against the generated API: the outcome vector plus independent damage.
 type Req struct {
-	Vec       Vec  `json:"vec"`
-	MissingQ  bool `json:"missing_q,omitempty"`  // required query parameter absent
-	BadCT     bool `json:"bad_ct,omitempty"`     // Content-Type not admitted by the operation
+	Vec      Vec  `json:"vec"`
+	MissingQ bool `json:"missing_q,omitempty"` // required query parameter absent
+	BadCT    bool `json:"bad_ct,omitempty"`    // Content-Type not admitted by the operation
 	// BadCTText: the header value sent when BadCT is set ("" for the default "text/weird"): a type the operation does
 	// not admit, or text that is no media type at all
 	BadCTText string `json:"bad_ct_text,omitempty"`
-	BadAccept bool `json:"bad_accept,omitempty"` // Accept the operation cannot satisfy
-	BadBody   bool `json:"bad_body,omitempty"`   // body the consumer cannot parse
+	BadAccept bool   `json:"bad_accept,omitempty"` // Accept the operation cannot satisfy
+	BadBody   bool   `json:"bad_body,omitempty"`   // body the consumer cannot parse
 	// Extra: request headers that have nothing to do with the security schemes of the API (a CORS preflight marker,
 	// proxy and upgrade headers ...): "whatever else is right or wrong with the request", they decide nothing.
 	Extra []string `json:"extra,omitempty"`
